@@ -101,7 +101,7 @@ def make_response(rng, method=b"GET", last=False, allow_upgrade=False):
     """returns (bytes, close_after)"""
     ver = b"HTTP/1.1" if rng.chance(0.85) else b"HTTP/1.0"
     st = _w(rng, [(b"200 OK", 10), (b"404 Not Found", 2), (b"204 No Content", 1), (b"304 Not Modified", 1), (b"500 Oops", 1)])
-    if allow_upgrade and rng.chance(0.12):
+    if allow_upgrade and rng.chance(0.18):
         st = b"101 Switching Protocols"
     hs = [b"Server: t"]
     body = b""
@@ -188,8 +188,9 @@ def gen_stream_srv(rng):
         parts.append(make_request(rng, i, True))
     if rng.chance(0.1):
         parts.insert(0, rng.choice([b"\r\n", b"\n"]))
-    if rng.chance(0.1):
-        parts.append(rng.choice([b"\r\n", b"GET /partial HTTP/1.1\r\nHo", b"\r\nTLSDATA", b"\n\rx"]))
+    if rng.chance(0.2):
+        parts.append(rng.choice([b"\r\n", b"GET /partial HTTP/1.1\r\nHo", b"\r\nTLSDATA", b"\n\rx", b" \tSPACE", b"\t\r\nTAB",
+                                 b"\x0b\x0c\r\nVT", b"\r \nq"]))
     s = b"".join(parts)
     if rng.chance(0.3):
         s = mutate(rng, s)
@@ -223,8 +224,8 @@ def gen_direct(rng, role, forced_cut=None, stream=None):
                 plan.append({"req": hx(rq), "len": len(rb), "end_after": _w(rng, [(0, 8), (1, 1), (2, 1)]),
                              "early_next": rng.chance(0.08)})
             s = b"".join(parts)
-            if rng.chance(0.1):
-                s += rng.choice([b"\r\n", b"HTTP/1.1 200 OK\r\n", b"junk"])
+            if rng.chance(0.2):
+                s += rng.choice([b"\r\n", b"HTTP/1.1 200 OK\r\n", b"junk", b" \tdata", b"\x0c\r\nq", b"\r\n \r\nz"])
     if forced_cut is not None:
         cuts = [forced_cut]
     elif rng.chance(0.25) and crlf_cut(rng, s) is not None:
@@ -1091,6 +1092,18 @@ def oracle(case, obs):
             for x in o:
                 if x[0] == "Crash" and x[1] != "CrashTrailers":
                     v.append({"key": "connection-object-crash-" + x[1], "what": f"{k} object raised {x[1:]} for stream {case['stream'][:120]}"})
+        # every message ends once: a second EndOfMessage without a new head in between
+        ended = False
+        for x in obs["view"]:
+            if x[0] in ("ReqHeaders", "RespHeaders"):
+                ended = False
+            elif x[0] == "EndOfMessage":
+                if ended and k == "cli":
+                    v.append({"key": "client-early-response-repeats-end-of-message",
+                              "what": f"cli: the response ended before the request did (streamed request); the next server bytes make "
+                                      f"read_body run the finished reader again: second ResponseEndOfMessage({x[1]}); cuts {case['cuts'][:12]}"})
+                    break
+                ended = True
         if obs["base"] is not None and obs["view"] != obs["base"]:
             i, x, y = _first_diff(obs["view"], obs["base"])
             a, b = obs["view"], obs["base"]
